@@ -9,8 +9,10 @@
 (*   "race"  a request fills the TokenCache while its token is on the list    *)
 (*           (it was validated before a revocation that has completed since)  *)
 (*           and a later request finds that entry                             *)
-(*   "tick"  a token's lifetime runs out and it is presented afterwards       *)
+(*   "tick"  a cached token's lifetime runs out and a later request finds it   *)
+(*           in the TokenCache                                                *)
 (*   "unrev" a token is revoked, un-revoked (Delete or Flush) and presented   *)
+(*   "hits"  at least two requests find their token in the TokenCache         *)
 EXTENDS TokenAuth, Json
 
 CONSTANTS Depth, Focus
@@ -30,14 +32,14 @@ Idx == 1..Len(h)
 Raced == \E i \in Idx : /\ h[i].call.act = "Add" /\ h[i].call.t \in h[i].st.db
                         /\ \E j \in Idx : j > i /\ h[j].call.act = "Hit" /\ h[j].call.t = h[i].call.t
 Ticked == \E i \in Idx : /\ h[i].call.act = "Tick"
-                         /\ \E j \in Idx : /\ j > i /\ h[j].call.act \in {"Hit", "Unwrap", "validate", "extract"}
-                                           /\ h[j].call.form = "exact" /\ kind[h[j].call.t] = "short"
-                         /\ \E j \in Idx : j < i /\ h[j].call.act = "Add" /\ kind[h[j].call.t] = "short"
+                         /\ \E j \in Idx : j > i /\ h[j].call.act = "Hit" /\ kind[h[j].call.t] = "short"
 Unrevoked == \E i \in Idx : /\ h[i].call.act = "BlPurgeTok"
                             /\ \E j \in Idx : /\ j > i /\ h[j].call.act \in {"DelCache", "FlDB"}
                                               /\ \E k \in Idx : /\ k > j /\ h[k].call.t = h[i].call.t
                                                                 /\ h[k].call.act \in {"Add", "Hit", "validate", "extract"}
+ManyHits == Cardinality({i \in Idx : h[i].call.act = "Hit"}) >= 2
 Wanted == CASE Focus = "any"   -> TRUE
+            [] Focus = "hits"  -> ManyHits
             [] Focus = "race"  -> Raced
             [] Focus = "tick"  -> Ticked
             [] Focus = "unrev" -> Unrevoked
